@@ -304,9 +304,13 @@ CLAIMED = {
              "of the run share a hash), so reading any earlier version through the current database is truthful-or-raises "
              "(old_version_read_truthful). The loop body AT RAW LEVEL (Model/WalkD.lean cstepD: root hash, the database as it is now, "
              "a cache of raw node bodies) is the tree-level step or MissingTraversalNode for a node that really is absent "
-             "(raw_step_refines, raw_cache_invariant), and it is what each real walk step is compared with. Modelled not proved: the caller's reaction to "
-             "that exception (drop the entry, go from the root) - tied by running real walks with the real cache "
-             "against the model, each whole step compared with cstep as one transition.",
+             "(raw_step_refines, raw_cache_invariant), and it is what each real walk step is compared with. The caller's reaction to "
+             "that exception (drop the entry, traverse from the root - cstepDR) never raises on a database complete for the current "
+             "version (raw_step_with_retry), and the WHOLE raw-level walk over a database that changes between steps (crunDR) never "
+             "raises, meets only pairs some version held, and has met every stable key once the fog is complete "
+             "(raw_walk_finds_stable_and_sound; its premise SchedOk is what earlier_versions_consistent provides along executor "
+             "histories). Tie: real walks with the real cache against the model, each whole step compared with cstep, cstepD and "
+             "cstepDR (retry included, cache keys compared) as one transition; a bystander walk with its own cache is judged model-free.",
         technique="Lean 4 proof (walk invariant over arbitrary schedules, well-founded measure) + correspondence check on real walks",
         design_ref="6/C09"),
     "C18": dict(
